@@ -87,7 +87,9 @@ def run(prop, repo='/repo', log=print):
             t0 = time.time()
             entry = {'id': v['id'], 'kind': v['kind']}
             restore = None
-            if v['kind'] == 'seed':
+            if 'patch' in v and not os.path.isabs(v['patch']):
+                v = dict(v, patch=os.path.join(HERE, 'patches', v['patch']))
+            if 'patch' in v:
                 r = subprocess.run(['git', 'apply', '--check', v['patch']], cwd=scratch,
                                    stdout=subprocess.PIPE, stderr=subprocess.STDOUT, text=True)
                 if r.returncode != 0:
